@@ -9,4 +9,4 @@ Extraction "../ocaml/gen/c20_model.ml"
   Table.str_of_Z Table.str_of_N Table.rmod_str Table.layout Table.display_table Table.display_seq
   Table.kh_stdout_bigraded Table.kh_stdout_seq Table.ckh_stdout
   Table.read_kh_bigraded Table.read_kh_seq Table.read_ckh
-  Cli.parse_ctype Cli.poly_vars Cli.dispatch Cli.parse_pair Cli.decide Cli.run Cli.exit_code Cli.ring_symbol Cli.ckh_graded Table.check_ckh_text.
+  Cli.parse_ctype Cli.poly_vars Cli.dispatch Cli.parse_pair Cli.decide Cli.run Cli.exit_code Cli.ring_symbol Cli.ckh_graded Cli.overflow_prone Table.check_ckh_text.
